@@ -40,7 +40,7 @@ def programs(tick, unit, kind):
     return P
 
 
-def build_case(word, prog, kind, fee, lev, fast, emb):
+def build_case(word, prog, kind, fee, lev, fast, emb, prog2=None):
     base, tick, unit = emb
     w = [progs.SHAPES['FLAT']] * 2 + progs.shapes(word) + [progs.SHAPES['FLAT']]
     tf = '3m' if fast else '1m'
@@ -48,15 +48,22 @@ def build_case(word, prog, kind, fee, lev, fast, emb):
         while len(w) % 3:
             w.append(progs.SHAPES['FLAT'])
     rows = S.make_candles(w, base + 20 * tick, tick)
-    cfg = {'type': kind, 'fee': fee, 'leverage': lev, 'balance': 100 * (base + 20 * tick) * unit}
-    return {'cfg': cfg, 'routes': [{'symbol': 'BTC-USDT', 'timeframe': tf, 'spec': prog}], 'candles': {'BTC-USDT': rows.tolist()}, 'fast': fast, 'observe': 0}
+    cfg = {'type': kind, 'fee': fee, 'leverage': lev, 'balance': 100 * (base + 20 * tick) * unit * (3 if prog2 else 1)}
+    case = {'cfg': cfg, 'routes': [{'symbol': 'BTC-USDT', 'timeframe': tf, 'spec': prog}], 'candles': {'BTC-USDT': rows.tolist()}, 'fast': fast, 'observe': 0}
+    if prog2 is not None:
+        mw = [(-g, -d, wd, wu) for (g, d, wu, wd) in w]
+        case['routes'].append({'symbol': 'ETH-USDT', 'timeframe': tf, 'spec': prog2})
+        case['candles']['ETH-USDT'] = S.make_candles(mw, 2 * base + 20 * tick, tick).tolist()
+    return case
 
 
 def _run(args):
-    word, pname, prog, kind, fee, lev, fast, emb = args
-    case = build_case(word, prog, kind, fee, lev, fast, emb)
+    word, pname, prog, kind, fee, lev, fast, emb = args[:8]
+    p2name = args[8] if len(args) > 8 else None
+    prog2 = dict(programs(emb[1], emb[2], kind))[p2name] if p2name else None
+    case = build_case(word, prog, kind, fee, lev, fast, emb, prog2)
     r = S.run_session(case)
-    ident = {'word': list(word), 'program': pname, 'kind': kind, 'fee': fee, 'leverage': lev, 'fast': fast, 'embedding': list(emb)}
+    ident = {'word': list(word), 'program': pname, 'kind': kind, 'fee': fee, 'leverage': lev, 'fast': fast, 'embedding': list(emb), 'program2': p2name}
     out = {'viols': [], 'stats': {}, 'nontrivial': False}
     if r['error']:
         out['viols'].append(Violation('unexpected-exception', {'exc': r['error'][0], 'program': pname}, ident, '%s: %s' % r['error'][:2]).to_json())
@@ -79,6 +86,12 @@ def cases(ctx):
             for pname, prog in P:
                 for w in progs.words(sigma, n):
                     yield (w, pname, prog, kind, fee, lev, fast, emb)
+    # two symbols on one wallet: events are per symbol, the wallet identity spans both
+    P = [p for p in programs(emb[1], emb[2], 'futures') if p[0] != 'flip-at-2']
+    for fast in (False, True):
+        for i, (pname, prog) in enumerate(P):
+            for w in progs.words(sigma, n - 1):
+                yield (w, pname, prog, 'futures', 0.001, 3, fast, emb, P[(i + 3) % len(P)][0])
 
 
 def run(ctx):
@@ -115,5 +128,5 @@ def run(ctx):
 def replay(case, ctx):
     emb = tuple(case['embedding'])
     P = dict(programs(emb[1], emb[2], case['kind']))
-    r = _run((tuple(case['word']), case['program'], P[case['program']], case['kind'], case['fee'], case['leverage'], case['fast'], emb))
+    r = _run((tuple(case['word']), case['program'], P[case['program']], case['kind'], case['fee'], case['leverage'], case['fast'], emb, case.get('program2')))
     return [Violation.from_json(v) for v in r['viols']]
